@@ -3,7 +3,7 @@
 Generator, direct property oracle (an independent re-statement of "conforms" following the
 property text, working from the case line alone) and metadata.  See notes/C06.md."""
 import json, math, os, re, shutil, struct, tempfile, datetime
-import vlib
+import vlib, engine
 from vlib import hx, unhx
 from props import base
 
@@ -14,17 +14,20 @@ THEOREMS = ["C06_accept_iff_conforms", "C06_conforms_flat_exact_keys", "C06_reje
             "C06_define_ok_appends", "C06_reachable_wf",
             "C06_text_front_transparent", "C06_text_accept_iff_conforms", "C06_former_witnesses_repaired",
             "C06_text_reject_no_trace", "C06_blank_spec",
-            "C06_alias_resolution", "C06_alias_case_insensitive", "C06_unknown_spec_is_string"]
+            "C06_alias_resolution", "C06_alias_case_insensitive", "C06_unknown_spec_is_string",
+            "C06_restart_same_registry", "C06_rejected_define_no_trace", "C06_accepted_schema_survives", "C06_replay_unique"]
 RULE = ("schemas (1-5 fields over every primitive alias in random case, `T | null` unions in both orders, malformed "
         "specs, enums, date/datetime) x payloads (a conforming payload per the property text, then 0-2 mutations: "
         "missing / extra / misspelled key, a value of every JSON type in a slot, i64/u64 boundary integers, floats in "
         "integer slots and integers in float slots, nested arrays/objects, empty / non-ASCII / brace-carrying strings, "
         "wrong-case enum variants, unparseable or out-of-range times, blank contexts, undefined types), each run as a "
-        "directly built Command::Store and as a command line through parse_command, plus DEFINE-twice histories and "
-        "the spec parser on its own; a case is non-trivial when its type was defined and the STORE reached payload "
+        "directly built Command::Store and as a command line through parse_command, plus DEFINE-twice histories, "
+        "histories with restarts on one data directory through `vharn life` (DEFINE / rejected re-DEFINE with another "
+        "field set / other types / malformed DEFINE lines / kill or clean restart / STOREs conforming to the accepted "
+        "and to the rejected schema) and the spec parser on its own; a case is non-trivial when its type was defined and the STORE reached payload "
         "validation, distinct by (probe, declared field types, mutation kinds, answer)")
 ASSUMPTIONS = [
-    "the registry model omits the random uid and the on-disk schemas.bin record (append assumed to succeed); DEFINE's permission gate and STORE's are not modelled (user 'bypass')",
+    "the registry model omits the random uid; schemas.bin is modelled as the list of whole records appended by accepted DEFINEs, replayed with last-record-wins at start (append assumed to succeed; torn or corrupt records, which the reader skips, are not modelled); DEFINE's permission gate and STORE's are not modelled (user 'bypass')",
     "field types are a primitive, Optional of a primitive or an enum - all that DEFINE's conversion can produce",
     "payload objects have unique keys (serde_json::Map); a command line with duplicate keys keeps the last one and is outside the model",
     "time strings: Model/Time.v (C16) models chrono by hand; the oracle's ground truth covers strict RFC 3339, YYYY-MM-DD and decimal integers, which is what the generator places in time slots",
@@ -355,6 +358,8 @@ def judge(c, impl):
     probe = line[0]
     if impl is None or impl in ("PANIC", "ABORT") or impl.startswith(("GENBUG", "UNKNOWN", "MODEL_EXN")):
         return f"implementation answered {impl}"
+    if probe == "store_life":
+        return judge_life(c, impl)
     if probe == "store_spec":
         spec = unhx(line[1]).decode("utf-8")
         d = declared(spec)
@@ -420,6 +425,44 @@ def judge(c, impl):
     return None
 
 
+def judge_life(c, impl):
+    """Histories with restarts: every answer is judged against the schemas that were ACCEPTED (first DEFINE of a
+    type with at least one field); a restart changes nothing."""
+    ops = _life_ops(c["line"])
+    res = impl.split(",")
+    if len(res) != len(ops) or any(r.startswith(("CRASH", "S=ERR", "D=ERR", "S=OTHER", "D=OTHER")) for r in res):
+        return f"history answered {impl}"
+    accepted = {}
+    for k, (op, r) in enumerate(zip(ops, res)):
+        if op[0] == "D":
+            if op[1] in accepted:
+                if r == "D=OK":
+                    return f"step {k}: DEFINE of the already defined type {op[1]!r} answered OK"
+            elif not op[2]:
+                if r == "D=OK":
+                    return f"step {k}: DEFINE without fields answered OK"
+            else:
+                if r != "D=OK":
+                    return f"step {k}: DEFINE of the new type {op[1]!r} answered {r}"
+                accepted[op[1]] = op[2]
+        elif op[0] == "X":
+            if r == "D=OK":
+                return f"step {k}: malformed DEFINE line {op[1]!r} answered OK"
+        elif op[0] == "S":
+            fields = accepted.get(op[1], [])
+            want, _ = conforms(fields, op[1] in accepted, True, op[2], op[3])
+            if want is None:
+                continue
+            nres = sum(1 for o in ops[:k] if o[0] in "RC")
+            if want and r != "S=OK":
+                return (f"step {k} ({nres} restart(s) earlier): STORE conforming to the ACCEPTED schema of {op[1]!r} "
+                        f"{fields!r} answered {r}: payload {op[3]!r}")
+            if not want and r == "S=OK":
+                return (f"step {k} ({nres} restart(s) earlier): STORE not conforming to the ACCEPTED schema of {op[1]!r} "
+                        f"{fields!r} answered OK: payload {op[3]!r}")
+    return None
+
+
 def oracle(c, impl):
     return judge(c, impl)
 
@@ -431,6 +474,8 @@ def classify(c, impl):
 
 def nontrivial_key(c, impl):
     o = parse_out(impl)
+    if c["line"].startswith("store_life"):
+        return ("life", c.get("mut"), impl)
     if c["line"].startswith("store_spec"):
         return ("spec", impl) if impl and impl != "None" else None
     if o.get("D", o.get("D1")) != "OK" and o.get("D2") != "OK":
@@ -665,6 +710,23 @@ def render(v, rng):
     return t, plus[0]
 
 
+def text_safe(x):
+    return not any(ch in '"\\' or ord(ch) < 32 for ch in x)
+
+
+def _show_op(op):
+    k, body = op[0], op[1:]
+    if k == "D":
+        et, tok = body.split(":", 1)
+        return f"DEFINE {unhx(et).decode()} {un_sch(tok)!r}"
+    if k == "X":
+        return unhx(body).decode()
+    if k in "RC":
+        return "RESTART(kill)" if k == "R" else "RESTART(clean)"
+    et, ctx, js = body.split(":")
+    return f"STORE {unhx(et).decode()} {unjt(js)!r}"
+
+
 IDENT = re.compile(r"^[a-zA-Z_][a-zA-Z0-9_-]*$")
 
 
@@ -748,6 +810,87 @@ def cases(rng, tier):
         add("badtext", f"store_text {sch_tok(fields)} = {rng.choice('qu')}{hx(ctx)} {hx(text)} ! 0",
             f"schema={fields!r} STORE <type> FOR {ctx!r} PAYLOAD {text}", types_key(fields), ["notjson"])
 
+    # --- histories with restarts on one data directory (vharn life): the schema in force after a restart
+    def safe_schema():
+        for _ in range(50):
+            f = gen_schema(rng)
+            if all(text_safe(n) for n, _ in f) and all(text_safe(x) for _, sp in f for x in (sp if isinstance(sp, list) else [sp])) \
+                    and all(sp for _, sp in f if isinstance(sp, list)):
+                return f
+        return [("a", "int")]
+
+    def conforming(fields):
+        for _ in range(20):
+            p, m = gen_payload(rng, fields)
+            if not m and isinstance(p, dict):
+                return p
+        return {}
+
+    def S(et, fields, k):
+        """two STOREs per call site: one conforming to `fields`, one mutated"""
+        p1 = conforming(fields)
+        p2, _ = gen_payload(rng, fields)
+        out = [f"S{hx(et)}:{hx(f'L{k}a')}:{jt(p1)}"]
+        if isinstance(p2, dict):
+            out.append(f"S{hx(et)}:{hx(f'L{k}b')}:{jt(p2)}")
+        return out
+
+    def D(et, fields):
+        return f"D{hx(et)}:{sch_tok(fields)}"
+
+    BAD_DEFINES = ['DEFINE {t} FIELDS {{ }}', 'DEFINE 9{t} FIELDS {{ "a": "int" }}', 'DEFINE {t} FIELDS {{ "a": {{ "b": "int" }} }}',
+                   'DEFINE {t} FIELDS {{ "a": 5 }}', 'DEFINE {t} FIELDS {{ "a": [] }}', 'DEFINE {t} FIELDS {{ "a": "int"',
+                   'DEFINE {t} AS x FIELDS {{ "a": "int" }}', 'DEFINE {t} {{ "a": "int" }}']
+    n_life = 28 if tier == "quick" else 400
+    for li in range(n_life):
+        R = lambda: rng.choice("RC")
+        f1, f2 = safe_schema(), safe_schema()
+        if rng.chance(1, 2):
+            # same field names, other types: the payload of one schema is a near miss of the other
+            f2 = [(n, rng.choice(["string", "int", "bool", "float | null", ["x", "y"]])) for n, _ in f1]
+        ops, mut = [], ""
+        shape = li % 7
+        if shape == 0:      # the reported family: DEFINE, rejected re-DEFINE with another field set, restart, STOREs for both
+            ops = [D("t", f1), D("t", f2)] + ([D("u", safe_schema())] if rng.chance(1, 2) else []) + [R()] + S("t", f1, 0) + S("t", f2, 1)
+            mut = "redefine-restart"
+        elif shape == 1:    # accepted DEFINE survives restarts; a re-DEFINE after the restart is still rejected
+            ops = [D("t", f1), R()] + S("t", f1, 0) + [D("t", f2), R()] + S("t", f1, 1) + S("t", f2, 2) + [R()] + S("t", f1, 3)
+            mut = "accepted-survives"
+        elif shape == 2:    # many types
+            n = rng.range(3, 7)
+            fs = [safe_schema() for _ in range(n)]
+            ops = [D(f"t{j}", fs[j]) for j in range(n)] + [D(f"t{rng.below(n)}", f2), R()]
+            for j in range(n):
+                ops += S(f"t{j}", fs[j], j)[:1]
+            ops += [R()] + S(f"t{rng.below(n)}", f2, 9)
+            mut = "many-types"
+        elif shape == 3:    # DEFINE lines rejected before the registry (malformed), then restart
+            bad = rng.choice(BAD_DEFINES).format(t="t")
+            ops = [f"X{hx(bad)}", R()] + S("t", f1, 0)[:1] + [D("t", f1), f"X{hx(rng.choice(BAD_DEFINES).format(t='t'))}", R()] + S("t", f1, 1)
+            mut = "malformed-define"
+        elif shape == 4:    # a type string that is not a type declares a string field, before and after the restart
+            fu = [("a", rng.choice(["foo", "foo | null", " int", "null", "int | float"])), ("b", "bool | null")]
+            ops = [D("t", fu)] + S("t", fu, 0) + [f"S{hx('t')}:{hx('Lx')}:{jt({'a': 'x'})}", f"S{hx('t')}:{hx('Ly')}:{jt({'a': 1})}", R(),
+                   f"S{hx('t')}:{hx('Lz')}:{jt({'a': 'x'})}", f"S{hx('t')}:{hx('Lw')}:{jt({'a': 1})}"] + S("t", fu, 1)
+            mut = "unknown-type-string"
+        elif shape == 5:    # rejected DEFINEs only (empty schema is unreachable on the command line; duplicates of every kind)
+            ops = [D("t", f1), D("t", f1), D("t", f2), D("T", f2), R(), D("t", f2), R(), R()] + S("t", f1, 0) + S("t", f2, 1) + S("T", f2, 2)
+            mut = "duplicates"
+        else:               # random mix
+            types = ["t", "u", "v"]
+            for k in range(rng.range(6, 12)):
+                r = rng.below(10)
+                et = rng.choice(types)
+                if r < 3:
+                    ops.append(D(et, safe_schema()))
+                elif r < 5:
+                    ops.append(R())
+                else:
+                    ops += S(et, rng.choice([f1, f2]), k)[:1]
+            ops += [R()] + S("t", f1, 20) + S("u", f2, 21)
+            mut = "mix"
+        add("life", "store_life " + ";".join(ops), f"history {mut}: " + " ; ".join(_show_op(o) for o in ops), "life", [mut])
+
     # --- DEFINE twice, then STORE: the first schema stays in force
     for si in range(60 * scale):
         f1 = gen_schema(rng)
@@ -778,7 +921,7 @@ def _case_ctx(line):
     return None
 
 
-def run_sides(cases_, model_ok, tmo=1700):
+def _run_fn_sides(cases_, model_ok, tmo=1700):
     """Implementation side twice.  Pass 1: a memtable that never fills; its answers are what the model is
     compared with and what the oracle judges in full (answer, exactly one / no new row, stored times).
     Pass 2: a 4-event memtable, so the history crosses many flushes.  From pass 2 only what C06 claims is used:
@@ -833,6 +976,105 @@ def run_sides(cases_, model_ok, tmo=1700):
         print(f"NOTE: C06 flush pass: in {unstable} of {len(idx)} cases the rows read back across flushes differ from the "
               f"no-flush pass (missing / late / phantom rows - C03/C07's subject, not judged by C06)")
     model = vlib.run_lines(vlib.MODEL_RUN, [], lines, timeout=tmo) if model_ok else [None] * len(lines)
+    return impl, model
+
+
+# ------------------------------------------------------------------ restart histories (`vharn life`)
+def _life_answer(r):
+    """canonical answer of one command run through `vharn life` (same enums as the Rust probe)"""
+    if "parse_error" in r or "panic" in r:
+        return "PARSE"
+    if r.get("error"):
+        return "ERR(" + str(r["error"])[:40].replace(" ", "_").replace(",", "_") + ")"
+    st = engine.parse_stream(r)
+    status, m = st["status"], st.get("message") or ""
+    if status == 200:
+        return "OK"
+    table = [("event_type cannot be empty", "EType"), ("context_id cannot be empty", "ECtx"), ("No schema defined for event type", "ENoSchema"),
+             ("Payload must be a JSON object", "ENotObject"), ("Field '", "EField"), ("Missing field '", "EField"),
+             ("Payload contains fields not defined in schema", "EExtra"), ("Invalid time string", "ETime"),
+             ("Unrecognized integer time magnitude", "ETime"), ("Unsupported numeric time value", "ETime"),
+             ("Time field must be a number or string", "ETime"), ("Float time value out of range", "ETime")]
+    for pre, name in table:
+        if m.startswith(pre):
+            return name if status == 400 else f"{name}@{status}"
+    if "already defined" in m:
+        return "AlreadyDefined"
+    if "Schema cannot be empty" in m:
+        return "EmptySchema"
+    return f"OTHER({status}_{m[:40].encode().hex()})"
+
+
+def _define_text(et, fields):
+    body = []
+    for n, sp in fields:
+        if isinstance(sp, list):
+            body.append(json.dumps(n, ensure_ascii=False) + ": [" + ", ".join(json.dumps(v, ensure_ascii=False) for v in sp) + "]")
+        else:
+            body.append(json.dumps(n, ensure_ascii=False) + ": " + json.dumps(sp, ensure_ascii=False))
+    return f"DEFINE {et} FIELDS {{ " + ", ".join(body) + " }"
+
+
+def _life_ops(line):
+    out = []
+    for op in line.split()[1].split(";"):
+        k, body = op[0], op[1:]
+        if k == "D":
+            et, tok = body.split(":", 1)
+            out.append(("D", unhx(et).decode(), un_sch(tok)))
+        elif k == "X":
+            out.append(("X", unhx(body).decode()))
+        elif k in "RC":
+            out.append((k,))
+        elif k == "S":
+            et, ctx, js = body.split(":")
+            out.append(("S", unhx(et).decode(), unhx(ctx).decode(), unjt(js)))
+    return out
+
+
+def run_life(line):
+    """One history on one private data directory through `vharn life` (tools/engine.py): every DEFINE / STORE is a
+    command line; R = kill the process and start a new one on the same directory, C = the same after a clean exit."""
+    e = engine.Engine(shards=1, fill_factor=100, event_per_zone=1000)
+    res = []
+    try:
+        e.start()
+        for op in _life_ops(line):
+            if op[0] == "D":
+                res.append("D=" + _life_answer(e.cmd(_define_text(op[1], op[2]))))
+            elif op[0] == "X":
+                res.append("D=" + _life_answer(e.cmd(op[1])))
+            elif op[0] == "R":
+                e.restart(clean=False)
+                res.append("R")
+            elif op[0] == "C":
+                e.restart(clean=True)
+                res.append("R")
+            else:
+                text = f"STORE {op[1]} FOR {json.dumps(op[2], ensure_ascii=False)} PAYLOAD {json.dumps(op[3], ensure_ascii=False)}"
+                res.append("S=" + _life_answer(e.cmd(text)))
+        return ",".join(res)
+    except Exception as ex:
+        return ",".join(res + [f"CRASH({type(ex).__name__})"])
+    finally:
+        e.destroy()
+
+
+def run_sides(cases_, model_ok, tmo=1700):
+    life = [i for i, c in enumerate(cases_) if c["line"].startswith("store_life ")]
+    lset = set(life)
+    fn = [i for i in range(len(cases_)) if i not in lset]
+    impl, model = [None] * len(cases_), [None] * len(cases_)
+    fi, fm = _run_fn_sides([cases_[i] for i in fn], model_ok, tmo)
+    for i, a, b in zip(fn, fi, fm):
+        impl[i], model[i] = a, b
+    if life:
+        import concurrent.futures
+        with concurrent.futures.ThreadPoolExecutor(max_workers=8) as ex:
+            li = list(ex.map(run_life, [cases_[i]["line"] for i in life]))
+        lm = vlib.run_lines(vlib.MODEL_RUN, [], [cases_[i]["line"] for i in life], timeout=tmo) if model_ok else [None] * len(life)
+        for i, a, b in zip(life, li, lm):
+            impl[i], model[i] = a, b
     return impl, model
 
 
